@@ -164,13 +164,13 @@ def run(tier, seed, args):
     gen = src.replace("len(text) <= 4", "len(text) <= %d" % n).replace("len(text) <= 7", "len(text) <= %d" % (7 if tier == "quick" else 8))
     gpath = os.path.join(cli.ROOT, "tier_s", "_c02_tok_gen.py")
     open(gpath, "w").write(gen)
-    pct = 140 if tier == "quick" else 1500
+    pct = 140 if tier == "quick" else 900
     targets = ["tier_s._c02_tok_gen.tok_matches", "tier_s._c02_tok_gen.loop_matches", "tier_s._c02_tok_gen.tok_matches_reach"]
     procs = crosshair_run.launch(targets, pct)
     mod = sys.modules[__name__]
     opts = dict(OPTS)
     max_paths = opts.pop("max_paths")
-    budget = opts.pop("budget_s") if tier == "quick" else 1500
+    budget = opts.pop("budget_s") if tier == "quick" else 900
     opts.setdefault("qtimeout", 10.0)
     opts.setdefault("otimeout", 20.0)
     res = explore.explore("harness.C02", jobs(tier, seed), opts, workers=13, max_paths=max_paths if tier == "quick" else 40000, budget_s=budget)
